@@ -59,9 +59,24 @@ func (c Const) Validate(v bytes.Bytes) {
 		return
 	}
 
-	if v.String() != c.nodeValue.String() {
+	if !equalScalars(v, c.nodeValue) {
 		panic(errors.Format(errors.ErrInvalidConst, c.nodeValue.String()))
 	}
+}
+
+// equalScalars tells whether two JSON scalars spell the same value: strings are
+// compared decoded ("a\/b" is "a/b"), numbers by value (1.50 is 1.5), anything
+// else by its text.
+func equalScalars(a, b bytes.Bytes) bool {
+	if a.InQuotes() && b.InQuotes() {
+		return a.Unquote().String() == b.Unquote().String()
+	}
+	na, errA := json.NewNumber(a)
+	nb, errB := json.NewNumber(b)
+	if errA == nil && errB == nil {
+		return na.Equal(nb)
+	}
+	return a.String() == b.String()
 }
 
 func (c Const) ASTNode() jschema.RuleASTNode {
